@@ -1,6 +1,7 @@
 (* C01/C16 driver: runs the extracted model on textual case descriptions.
    stdin lines:
      reset
+     V <align> <rawpad> <alloc0> <clamp> <bofceil>            source variant (0/1 each, from translate/tr_readpath.py)
      raw <id> <ctype 0..9> <spf> <fo> <n> <hex>...          declare RAW leaf data
      def <name> raw <id> | index | phase <in> <shift> | lincom1 <in> <m> <b>
         | lincom2 <a> <b> m1 b1 m2 b2 | lincom3 <a> <b> <c> m1 b1 m2 b2 m3 b3
@@ -39,6 +40,7 @@ let decz (s : string) : z = z_of_i64 (Int64.of_string s)
 let ctypes = [| I8; U8; I16; U16; I32; U32; I64; U64; F32; F64 |]
 let cty s = ctypes.(int_of_string s)
 
+let cur = ref (mk_variant false false false false false)
 let raws : (int, rawinfo) Hashtbl.t = Hashtbl.create 16
 let fields : (string, field) Hashtbl.t = Hashtbl.create 64
 let dummy = { r_ty = U8; r_spf = Zpos XH; r_fo = Z0; r_data = [] }
@@ -80,7 +82,7 @@ let define name kind args =
 let show_v (v : xval) = match v with XV b -> Printf.sprintf "%Lx" (i64_of_z b) | XU -> "?"
 let show_l l = String.concat " " (List.map show_v l)
 let show_tag t = match t with
-  | TRawPad -> "rawpad" | TUnaligned -> "unaligned" | TEmpty2 -> "empty2"
+  | TRawPad -> "rawpad" | TUnaligned -> "unaligned"
   | TMplexRate -> "mplexrate" | TMplexNeg -> "mplexneg" | TAllocZero -> "alloczero" | TMplexSeek -> "mplexseek"
 let zs v = Int64.to_string (i64_of_z v)
 let rec len_z l = List.length l
@@ -92,25 +94,26 @@ let () =
       (try
         match List.filter (fun s -> s <> "") (String.split_on_char ' ' (String.trim line)) with
         | ["reset"] -> Hashtbl.reset raws; Hashtbl.reset fields
+        | ["V"; a; b; c; d; e] -> cur := mk_variant (a = "1") (b = "1") (c = "1") (d = "1") (e = "1")
         | "raw" :: id :: ct :: spf :: fo :: _ :: vals ->
             Hashtbl.replace raws (int_of_string id)
               { r_ty = cty ct; r_spf = decz spf; r_fo = decz fo; r_data = List.map hexz vals }
         | "def" :: name :: kind :: args -> define name kind args
         | ["G"; name; rt; s; n] ->
             let f = fld name and rt = cty rt and s = decz s and n = decz n in
-            let m = (match x_impl_read db rt f s n with
+            let m = (match x_impl_read db !cur rt f s n with
               | None -> "e"
               | Some l -> Printf.sprintf "%d %s" (len_z l) (show_l l)) in
             let sp = x_spec_window db rt f s n in
-            let tags = x_uncovered db rt f s n in
+            let tags = x_uncovered db !cur rt f s n in
             Printf.printf "G M %s|S %d %s|T %s\n" m (len_z sp) (show_l sp)
               (String.concat "," (List.sort_uniq compare (List.map show_tag tags)))
         | ["E"; name] ->
             let f = fld name in
-            let ie = (match x_impl_eof db f with Some v -> zs v | None -> "none") in
+            let ie = (match x_impl_eof db !cur f with Some v -> zs v | None -> "none") in
             let se = (match x_spec_eof_report db f with Some v -> zs v | None -> "none") in
             let rec first k = if k > 400 then -1 else if x_is_real db f (z_of_i64 (Int64.of_int k)) then k else first (k + 1) in
-            Printf.printf "E %s %s %s|%s %s|%d|%b %b\n" ie (zs (x_impl_bof db f)) (zs (x_spf db f)) se (zs (x_spec_bof db f)) (first 0)
+            Printf.printf "E %s %s %s|%s %s|%d|%b %b\n" ie (zs (x_impl_bof db !cur f)) (zs (x_spf db f)) se (zs (x_spec_bof db f)) (first 0)
               (x_noclampb db f) (x_nophaseb f)
         | ["N"; id] ->
             let i = n_of_int (int_of_string id) in
